@@ -1353,6 +1353,9 @@ func (o *ovsdbClient) handleDisconnectNotification() {
 	// wait for client related handlers to shutdown
 	o.handlerShutdown.Wait()
 	o.rpcMutex.Lock()
+	// the connection is gone, whoever closed it: Connected() answers false
+	// until connect has succeeded again
+	o.connected = false
 	if o.options.reconnect && !o.shutdown {
 		o.rpcClient = nil
 		lostEndpoint := o.endpoints[0].address // read under the lock: UpdateEndpoints replaces the slice
